@@ -65,6 +65,14 @@ RelFrames ==
     \cup { RF("LOGOUT", rel, FALSE) : rel \in {0, 1} }
     \cup { [RF("APP", 0, FALSE) EXCEPT !.hdr = h] :
              h \in {"nosender", "notarget", "swapped", "wrongS", "wrongT", "noseq", "badbs"} }
+    \* the same integrity defects on every session-level kind (a defect must not be excused by the message type)
+    \cup { [f EXCEPT !.hdr = h] :
+             h \in {"nosender", "wrongS", "noseq"},
+             f \in { RF("HB", 0, FALSE), [RF("TR", 0, FALSE) EXCEPT !.trid = "T1"],
+                     [RF("RR", 0, FALSE) EXCEPT !.bv = 1],
+                     [RF("SEQRESET", 0, TRUE) EXCEPT !.gf = TRUE, !.nv = 1],
+                     [RF("SEQRESET", 0, FALSE) EXCEPT !.nm = "abs", !.nv = 2],
+                     RF("LOGON", 0, FALSE), RF("LOGOUT", 0, FALSE) } }
 RelSends ==
     { RS("APP", "11=s1"), RS("APP", "11=BADENC"), RS("LOGON", ""), RS("LOGOUT", ""), RS("HB", ""),
       [RS("TR", "") EXCEPT !.trid = "9"], [RS("TR", "") EXCEPT !.trid = "match"],
